@@ -370,6 +370,35 @@ Definition reader_handle_from_key (t : ty) (decoded_key : fields) : res (list Z)
 (* reader side with PID_KEY_HASH: the 16 bytes of the inline QoS are the handle *)
 Definition reader_handle_from_keyhash (h : list Z) : list Z := h.
 
+(* the whole reader side of communication_methods.rs:218-274 / builtin_data_reader.rs:
+   74-123 for a received change (alive or not, optional PID_KEY_HASH, payload), over an
+   XCDR decoder for samples and one for serialized keys *)
+Definition E_DECODE_SAMPLE : Z := 20.
+Definition E_DECODE_KEY : Z := 22.
+Definition reader_handle (decode_sample decode_key : ty -> list Z -> option fields)
+    (t : ty) (alive : bool) (key_hash : option (list Z)) (payload : list Z) : res (list Z) :=
+  match key_hash with
+  | Some h => Ok (reader_handle_from_keyhash h)
+  | None =>
+      if alive then
+        match decode_sample t payload with
+        | Some d => instance_handle t d
+        | None => Err E_DECODE_SAMPLE
+        end
+      else
+        match decode_key (key_holder_ty t) payload with
+        | Some kd => reader_handle_from_key t kd
+        | None => Err E_DECODE_KEY
+        end
+  end.
+
+(* two different serialized keys on which MD5 (or MD5 and zero padding) coincide *)
+Definition md5_coincidence (b1 b2 : list Z) : Prop :=
+  b1 <> b2 /\
+  ((16 < len b1 /\ 16 < len b2 /\ md5 b1 = md5 b2) \/
+   (len b1 <= 16 < len b2 /\ pad16 b1 = md5 b2) \/
+   (len b2 <= 16 < len b1 /\ md5 b1 = pad16 b2)).
+
 (* ------------------------------------------ the key of a sample (specification) *)
 
 (* the values of the key members, in key-holder order *)
@@ -431,6 +460,12 @@ Definition key_max_le16 (t : ty) : bool :=
 (* DDS-XTypes 7.6.8 as stated by the property *)
 Definition spec_handle (t : ty) (d : fields) : res (list Z) :=
   b <- key_bytes t d ;; Ok (if key_max_le16 t then pad16 b else md5 b).
+
+(* the class in which the code's actual-length test and the standard's maximum-size
+   test disagree: the key type may pass 16 bytes, this value's key does not *)
+Definition short_of_long (t : ty) (d : fields) : bool :=
+  negb (key_max_le16 t) &&
+  match key_bytes t d with Ok b => len b <=? 16 | _ => false end.
 
 (* ------------------------------------------------------- well-formedness *)
 
